@@ -23,6 +23,9 @@ Definition ev_code (e : event) : N * N :=
   | EDup s => (3, s) | ENothing s => (4, s) | EFinal s => (5, s)
   end.
 
+Definition q_code (q : qreq) : N * N :=
+  match q with QAncestors h => (0, h) | QBody h => (1, h) end.
+
 (* what is observed of one Process call *)
 Record pobs := mkpobs {
   o_error : bool;
@@ -30,7 +33,7 @@ Record pobs := mkpobs {
   o_reps : list (N * N);
   o_bans : list N;
   o_disjoint : list (list N);
-  o_queue : list N;
+  o_queue : list (N * N);          (* (0, h) ancestor search from h, (1, h) body request for h *)
   o_accepted : list bool
 }.
 
@@ -40,14 +43,14 @@ Definition pobs_eqb (a b : pobs) : bool :=
   && list_eqb pair_eqb (o_reps a) (o_reps b)
   && list_eqb N.eqb (o_bans a) (o_bans b)
   && list_eqb (list_eqb N.eqb) (o_disjoint a) (o_disjoint b)
-  && list_eqb N.eqb (o_queue a) (o_queue b)
+  && list_eqb pair_eqb (o_queue a) (o_queue b)
   && list_eqb Bool.eqb (o_accepted a) (o_accepted b).
 
 Fixpoint project (bad : list N) (steps : list step) (outs : list (option presult)) : list pobs :=
   match steps, outs with
   | SProcess rs :: sr, Some r :: orr =>
     mkpobs (pr_error r) (map ev_code (pr_events r)) (pr_reps r) (pr_bans r)
-           (map (map d_hash) (u_disjoint (p_un (pr_state r)))) (p_queue (pr_state r))
+           (map (map d_hash) (u_disjoint (p_un (pr_state r)))) (map q_code (p_queue (pr_state r)))
            (match accepted true true true bad rs with Some l => l | None => [] end)
     :: project bad sr orr
   | _ :: sr, _ :: orr => project bad sr orr
